@@ -698,6 +698,9 @@ func (r *c01Run) msg(kv c01KV) string {
 		return "bad-op"
 	}
 	m := c01Messages[i]
+	if _, has := kv["raw"]; has {
+		m.text = kv.s("raw")
+	}
 	var err error
 	if m.text == "BINARY" {
 		err = c.conn.WriteMessage(websocket.BinaryMessage, []byte{0, 1, 2, 3})
